@@ -510,30 +510,8 @@ def run(ctx: Ctx) -> None:
             nm = f"single deviation scan={scan} dec={dec}: the other property still holds"
             pool.submit(nm, M, model_cfg(4, "AABA", 2, 2, 0, scan, dec, invs), workers=W, **kw)
             clean.append(nm)
-    cexs = []
-    for name, (n, d, mn, mx, st), scan, dec, inv in cex_cfgs:
-        r = pool.result("cex:" + name)
-        ctx.add_tlc(expect_violation(r, inv, f"JobArrayer.tla deviation control {name}"))
-        labels = cex_labels(r)
-        ctx.require(len(labels) > 5, f"could not read the counterexample for {name}")
-        cexs.append((name, scenario(d, mn, mx, st), labels))
-    ctx.note("model_counterexamples", {nm: " ".join(lb) for nm, _, lb in cexs})
-
     col = Collector(ctx, tree)
     phase = {"cex_models": round(ctx.elapsed(), 1)}
-
-    # ---- 2. spec -> code: replay TLC's counterexamples by anchors ------------------------------
-    replayed = {}
-    for name, scn, labels in cexs:
-        ch = tc.DirectedChooser(tree.directives(labels))
-        runx = execute(tree, scn, ch)
-        replayed[name] = {"directives_followed": ch.k, "of": len(ch.directives),
-                          "errs": [e["type"] for e in runx["errs"]]}
-        col.add(scn, runx, f"tlc-counterexample:{name}")
-    ctx.note("counterexample_replay", replayed)
-    ctx.sample({"source": "tlc-counterexample", "labels": cexs[0][2], "schedule": "".join(
-        s[1] for s in col.runs[0][1]["schedule"])})
-
     # ---- 3. code -> spec: bounded pre-emption enumeration + seeded random schedules -------------
     scns = [scenario("ABA", 2, 2), scenario("AAB", 2, 2, gaps={1: 2}), scenario("AAAA", 2, 3, gaps={2: 1}),
             scenario("AAA", 2, 2, 1), scenario("ABA", 2, 2, script=(2,))]
@@ -559,6 +537,28 @@ def run(ctx: Ctx) -> None:
             col.add(scn, runx, f"random:{seed}")
     ctx.note("schedules_enumerated", explored)
     ctx.note("preemption_bound", bound)
+    cexs = []
+    for name, (n, d, mn, mx, st), scan, dec, inv in cex_cfgs:
+        r = pool.result("cex:" + name)
+        ctx.add_tlc(expect_violation(r, inv, f"JobArrayer.tla deviation control {name}"))
+        labels = cex_labels(r)
+        ctx.require(len(labels) > 5, f"could not read the counterexample for {name}")
+        cexs.append((name, scenario(d, mn, mx, st), labels))
+    ctx.note("model_counterexamples", {nm: " ".join(lb) for nm, _, lb in cexs})
+
+
+    # ---- 2. spec -> code: replay TLC's counterexamples by anchors ------------------------------
+    replayed = {}
+    for name, scn, labels in cexs:
+        ch = tc.DirectedChooser(tree.directives(labels))
+        runx = execute(tree, scn, ch)
+        replayed[name] = {"directives_followed": ch.k, "of": len(ch.directives),
+                          "errs": [e["type"] for e in runx["errs"]]}
+        col.add(scn, runx, f"tlc-counterexample:{name}")
+    ctx.note("counterexample_replay", replayed)
+    ctx.sample({"source": "tlc-counterexample", "labels": cexs[0][2], "schedule": "".join(
+        s[1] for s in col.runs[0][1]["schedule"])})
+
     ok_run = next((r for s, r, src in col.runs if not r["errs"] and r["npre"] > 0), None)
     if ok_run:
         ctx.sample({"source": "enumeration", "schedule": "".join(s[1] for s in ok_run["schedule"]),
